@@ -4,7 +4,8 @@ PID, CORPUS = "C02", "pv.corpora.c02"
 
 
 def run(tier, seed):
-    return _e1check.run(PID, CORPUS, tier, seed)
+    # K1: LIMIT/OFFSET composition of chained slice_head for all non-negative ints (CrossHair)
+    return _e1check.run(PID, CORPUS, tier, seed, crosshair=("k1",))
 
 
 def replay(path):
